@@ -37,6 +37,48 @@ func alphaCmd(args []string) error {
 	}
 	defer done()
 	rng := rand.New(rand.NewSource(*seed))
+	// A colour is what its RGBA() method says: every constructor / converter that takes a
+	// color.Color gives, for a value of ANY dynamic type, what it gives for the color.RGBA64 with
+	// the same RGBA() - and for opaque 8-bit colours what the 8-bit constructors give.  Asked
+	// first (nothing has been built or counted yet in this process) and again at the end.
+	zoo := func(phase string, n int) {
+		for i := 0; i < n; i++ {
+			r, g, b, a := uint8(rng.Intn(256)), uint8(rng.Intn(256)), uint8(rng.Intn(256)), uint8(1+rng.Intn(255))
+			if i%16 == 0 {
+				r, b = g, g // greys: where an "is it grey / is it 8-bit" shortcut would bite
+			}
+			for _, sp := range spaces {
+				for _, c := range colourZoo(r, g, b, a) {
+					cr, cg, cb, ca := c.RGBA()
+					canon := color.RGBA64{uint16(cr), uint16(cg), uint16(cb), uint16(ca)}
+					tn := fmt.Sprintf("%T", c)
+					e1, a1 := sp.fromEnc(c)
+					e2, a2 := sp.fromEnc(canon)
+					sink.put(map[string]interface{}{"kind": "agree", "what": sp.name + ".ColorFromEncodedColor(" + tn + ") vs the RGBA64 with the same RGBA() [" + phase + "]",
+						"a": []int{bits(e1.R), bits(e1.G), bits(e1.B), bits(a1)}, "b": []int{bits(e2.R), bits(e2.G), bits(e2.B), bits(a2)}})
+					l1, la1 := sp.fromLin(c)
+					l2, la2 := sp.fromLin(canon)
+					sink.put(map[string]interface{}{"kind": "agree", "what": sp.name + ".ColorFromLinearColor(" + tn + ") vs RGBA64 [" + phase + "]",
+						"a": []int{bits(l1.R), bits(l1.G), bits(l1.B), bits(la1)}, "b": []int{bits(l2.R), bits(l2.G), bits(l2.B), bits(la2)}})
+					x1, x2 := sp.linCol(c), sp.linCol(canon)
+					y1, y2 := sp.encCol(c), sp.encCol(canon)
+					sink.put(map[string]interface{}{"kind": "agree", "what": sp.name + ".LineariseColor/EncodeColor(" + tn + ") vs RGBA64 [" + phase + "]",
+						"a": []int{int(x1.R), int(x1.G), int(x1.B), int(x1.A), int(y1.R), int(y1.G), int(y1.B), int(y1.A)},
+						"b": []int{int(x2.R), int(x2.G), int(x2.B), int(x2.A), int(y2.R), int(y2.G), int(y2.B), int(y2.A)}})
+				}
+				n8, an := sp.fromNRGB(color.NRGBA{r, g, b, 255})
+				e8, ae := sp.fromEnc(color.NRGBA{r, g, b, 255})
+				g8, ag := sp.fromEnc(color.Gray{g})
+				ng, _ := sp.fromNRGB(color.NRGBA{g, g, g, 255})
+				sink.put(map[string]interface{}{"kind": "agree", "what": sp.name + " opaque NRGBA: ColorFromNRGBA vs ColorFromEncodedColor [" + phase + "]",
+					"a": []int{bits(n8.R), bits(n8.G), bits(n8.B), bits(an)}, "b": []int{bits(e8.R), bits(e8.G), bits(e8.B), bits(ae)}})
+				sink.put(map[string]interface{}{"kind": "agree", "what": sp.name + " Gray vs ColorFromNRGBA of the same grey [" + phase + "]",
+					"a": []int{bits(g8.R), bits(g8.G), bits(g8.B), bits(ag)}, "b": []int{bits(ng.R), bits(ng.G), bits(ng.B), bits(1)}})
+			}
+		}
+	}
+	zoo("first", 40)
+	defer zoo("last", 40)
 	// which 16-bit alphas
 	alphas := map[int]bool{}
 	if *tier == "thorough" {
